@@ -7,7 +7,10 @@ mod out;
 mod pure;
 mod range;
 mod rng;
+mod seq;
+mod sess;
 mod wire;
+mod worker;
 
 use std::path::PathBuf;
 
@@ -21,6 +24,10 @@ fn arg(args: &[String], name: &str) -> Option<String> {
 fn main() {
     let args: Vec<String> = std::env::args().collect();
     let slice = args.get(1).cloned().unwrap_or_default();
+    if slice == "worker" {
+        worker::main();
+        return;
+    }
     let seed: u64 = arg(&args, "--seed").and_then(|s| s.parse().ok()).unwrap_or(1);
     let n: u64 = arg(&args, "--n").and_then(|s| s.parse().ok()).unwrap_or(100);
     let outdir = PathBuf::from(arg(&args, "--out").unwrap_or_else(|| ".".into()));
@@ -36,6 +43,13 @@ fn main() {
         "c10frame" => pure::c10_frame(&mut rng, n, &work, &mut out),
         "c18" => pure::c18(&mut rng, n, &mut out),
         "c17" => range::c17(&mut rng, n, &work, &mut out),
+        "c01" | "c02" | "c13" => {
+            let mut s = sess::Sess::new(&work);
+            let (w, p): (&seq::Weights, &'static str) = match slice.as_str() { "c01" => (&seq::W_C01, "C01"), "c02" => (&seq::W_C02, "C02"), _ => (&seq::W_C13, "C13") };
+            seq::histories(&mut s, &mut rng, n, w, p);
+            s.finish();
+            out = std::mem::take(&mut s.out);
+        }
         other => {
             eprintln!("unknown slice {other}");
             std::process::exit(2);
